@@ -69,6 +69,18 @@ def h_pairs(ctx, a, others):
         st_name = "spc" if "spc" in spec["sets"] else list(spec["sets"])[0]
         st, r = ctx.attempt(K.build, spec, K.lookup_opcode(spec, st_name), dict(a0, **{bad: "not-a-number"}), e0)
         _same_obs(ctx, "after a failed construction (%s)" % bad, _observe(cls, ca, probe), solo)
+    # another command of the *same* class with other arguments does not change the first one
+    spec3, cls3, ca3 = _build(ctx, a, "c_", symbolic=False)
+    _same_obs(ctx, "after another command of the same class", _observe(cls, ca, probe), solo)
+    # editing a command's own CDB in place (e.g. setting the control byte) stays local to that command
+    if len(ca3.cdb):
+        ca3.cdb[len(ca3.cdb) - 1] = ca3.cdb[len(ca3.cdb) - 1] ^ 0xFF
+        ca3.cdb[0] = ca3.cdb[0] ^ 0x80
+    spec4, cls4, ca4 = _build(ctx, a, "c_", symbolic=False)
+    ctx.check("a command built with equal arguments is not affected by in-place edits of an earlier command's CDB",
+              same(list(ca4.cdb)[1:-1], ctx.oracle_struct(list(ca3.cdb)[1:-1])) & (ca4.cdb[0] == (ca3.cdb[0] ^ 0x80))
+              if len(ca3.cdb) else True)
+    _same_obs(ctx, "after editing another command's CDB in place", _observe(cls, ca, probe), solo)
     # a second instance of A built after all the others encodes like the first
     spec2, cls2, ca2 = _build(ctx, a, "a_")
     ctx.check("a command built after other commands has the same CDB as one built before them",
